@@ -213,8 +213,15 @@ def month_records(ctx):
     if tbl is not None:
         c03.anchor_rule(ctx, tbl)
     c03.length_rule(ctx)
+    c05_solver(ctx)
     memo_transparent(ctx, full=False)
     memo_cells(ctx)
+
+
+def c05_solver(ctx):
+    """the month records come out of the new-moon / term day solvers: their structure rules travel with the bundle"""
+    from rules import c05
+    c05.run(ctx, only_solver=True)
 
 
 def solver_structure(ctx):
